@@ -62,4 +62,8 @@ def summaryStep (s : Summary) : Item → Summary
 
 def summary (bs : Bytes) : Summary := (records bs).foldl summaryStep ⟨none, none, none, 0, 0⟩
 
+/-- `ProguardMapping::section(a..b)`: the sub-mapping is the mapping of the byte range (the
+    Rust method panics unless `a ≤ b ≤ len`; callers establish that). -/
+def sectionOf (bs : Bytes) (a b : Nat) : Bytes := (bs.drop a).take (b - a)
+
 end PG
